@@ -3,8 +3,6 @@ package cache
 import (
 	"context"
 	"time"
-
-	"github.com/cespare/xxhash/v2"
 )
 
 // In-package access to the three backends, so harnesses can construct arbitrary valid
@@ -67,11 +65,11 @@ func verifNewBackend(kind int, cfg Config) *verifBackend {
 		return &verifBackend{
 			name: "ShardedMap", rw: m, del: m, trait: c.t,
 			put: func(key []byte, v interface{}, e, cnt int64) {
-				h := xxhash.Sum64(key)
+				h := verifHash(key)
 				c.hashedBuckets[h%shards].data[h] = &TraitEntry{K: verifCopyKey(key), V: v, E: e, C: cnt}
 			},
 			get: func(key []byte) (verifEntryView, bool) {
-				h := xxhash.Sum64(key)
+				h := verifHash(key)
 				en, ok := c.hashedBuckets[h%shards].data[h]
 				if !ok || string(en.K) != string(key) {
 					return verifEntryView{}, false
@@ -121,11 +119,11 @@ func verifNewBackend(kind int, cfg Config) *verifBackend {
 		return &verifBackend{
 			name: "ShardedMapOf[int]", generic: true, rwOf: m, del: m, trait: &c.t.Trait,
 			put: func(key []byte, v interface{}, e, cnt int64) {
-				h := xxhash.Sum64(key)
+				h := verifHash(key)
 				c.hashedBuckets[h%shards].data[h] = &TraitEntryOf[int]{K: verifCopyKey(key), V: v.(int), E: e, C: cnt}
 			},
 			get: func(key []byte) (verifEntryView, bool) {
-				h := xxhash.Sum64(key)
+				h := verifHash(key)
 				en, ok := c.hashedBuckets[h%shards].data[h]
 				if !ok || string(en.K) != string(key) {
 					return verifEntryView{}, false
